@@ -958,6 +958,17 @@ func (this *encodingTask) encode(res *encodingTaskResult) {
 	obs.Close()
 	written := obs.Written()
 
+	if n := int((written + 7) >> 3); n > cap(data) {
+		// The entropy coder expanded the block beyond the buffer handed to the local
+		// stream, which then grew its own buffer: fetch the bytes from the stream
+		data = make([]byte, n)
+
+		if _, err = bufStream.Read(data); err != nil {
+			res.err = &IOError{msg: err.Error(), code: kanzi.ERR_PROCESS_BLOCK}
+			return
+		}
+	}
+
 	if len(this.listeners) > 0 {
 		// Notify after entropy
 		evt := kanzi.NewEvent(kanzi.EVT_AFTER_ENTROPY, int(this.currentBlockID),
